@@ -12,6 +12,12 @@ CHECKS = {
  "C03": ("exploration", "differential twins over commit schedules + Obs comparison at every block boundary (runtime monitoring)",
          "Real engine driven in-process through the JSON-RPC method table; one generated history replayed under never/every/every-k/random commit schedules, all responses and the full read surface (Obs) compared at every boundary; clearCaches/reopen compared with a fresh replay of the last commit and then extended. Held = no difference on the executions of this run.",
          "Obs covers the public read surface only; twins share schedule-independent bugs; sampled histories, not all."),
+ "C13": ("exploration", "reference-model monitor: exhaustive BFS on the real history type + random sequences on the real RocksDB-backed tables vs an in-memory model",
+         "Real BlockHistoryCacheData/BlockCachedDatabase/BlockDatabase (through hook re-exports) driven against a never-pruned model; BFS over all short operation sequences from six base heights (canonicalised), random long sequences over three key types incl. commit/clear/reopen/rollback and boundary range scans (complete, in key order).",
+         "BFS is breadth-bounded (frontier not closed); preconditions of the table API respected; one open known finding (deep rollback after purge)."),
+ "C14": ("exploration", "law checking (round trip, self-delimiting, order preservation, JSON idempotence) on generated values of every persisted/served type",
+         "Encode/Decode and serde laws evaluated on boundary-biased generated values of all persisted/served types and request types via the real trait impls.",
+         "Values restricted to what the module's constructors can produce; sampled."),
 }
 NOT_YET = "check not built yet in this session (planned, see DESIGN.md)"
 ALL = ["C%02d" % i for i in range(1, 21)]
